@@ -10,13 +10,13 @@ TRUST = ("Trusted: TLC 1.8 / tla2tools, the TLA+ modules in /verif/spec as a sta
 
 # id -> (engine, technique, level text, design ref)
 CLAIMED = {
- "C01": ("tlc-regions", "TLC model check of RegionsMC (RoundTrip invariant) + per-transition replay on the real regions",
+ "C01": ("tlc-regions", "TLC model check of RegionsMC (RoundTrip invariant) + per-transition replay on the real regions + ICMC index sequences replayed through regions + TLC trace validation of recorded histories (TraceContract, TraceHuffman, TraceDict, TraceCodedColumns)",
          "RoundTrip is an invariant of the region algebra for every catalogued composition and every bounded history; every transition of that state graph is replayed on the real types in both build profiles and the item read at the new index (through len/is_empty/get/iter/into_owned/reborrow) must equal the model's value.", "5 C01"),
- "C02": ("tlc-regions", "TLC action property AppendOnly on RegionsMC + replay re-reading every live index after each step",
+ "C02": ("tlc-regions", "TLC action property AppendOnly on RegionsMC + replay re-reading every live index after each step + ICMC index sequences replayed through regions + TLC trace validation of recorded histories (TraceContract, TraceHuffman, TraceDict, TraceCodedColumns)",
          "AppendOnly is checked as an action property on the Level-B model (with structural invariants explaining why); on the code every transition that pushes or reserves is replayed and all earlier reads are compared before/after.", "5 C02"),
- "C03": ("tlc-flatstack", "TLC model check of FlatStackMC (Denote invariant) + per-transition replay on real FlatStacks",
+ "C03": ("tlc-flatstack", "TLC model check of FlatStackMC (Denote invariant) + per-transition replay on real FlatStacks + ICMC index sequences replayed through FlatStacks + TLC trace validation of recorded stack histories (TraceContract)",
          "The stack denotes the copied sequence for every index container (Vec, IndexOptimized, IndexList); each transition (copy/extend/from_iter/clear/clone/serde/reserve/with_capacity/merge_capacity) is replayed and len, is_empty, get(0..len+2), iteration, cloned iterators and size hints are compared with the model.", "5 C03"),
- "C04": ("tlc-regions", "TLC invariant StringsValid (Utf8.tla DFA) on string-bearing shapes + replay checking bytes of every &str",
+ "C04": ("tlc-regions", "TLC invariant StringsValid (Utf8.tla DFA) on string-bearing shapes + replay checking bytes of every &str + TLC trace validation of StringRegion over the dictionary codec (TraceDict) + StringAlphabet facts of the program text",
          "Every string read in the model is valid UTF-8 and was pushed into that slot; on the code every &str handed out along every replayed transition is validated byte-wise (std::str::from_utf8 on as_bytes) and must be one of the pushed strings.", "5 C04"),
  "C05": ("tlc-index", "TLC model check of ICMC over exact 64-bit words + replay of every transition on the real containers + TLC trace validation of long recorded walks (TraceIC)",
          "All push/extend/clear sequences up to the bound over the transition-covering alphabet (0, small strides, u32::MAX, u32::MAX+1, 2^63, usize::MAX-1, usize::MAX): the model proves the container denotes the pushed sequence and Stride accepts exactly the documented pattern; every transition is executed on Vec/Stride/IndexList/IndexOptimized in overflow-checked and wrapping builds (panic = mismatch). Walks of thousands of pushes (long strides, saturation, stride*count leaving usize, the u32->u64 switch, extend batches, clears, copies) recorded from the real containers are validated against the same state machine.", "5 C05"),
@@ -24,31 +24,31 @@ CLAIMED = {
          "Tiling of the bit axis, refusal exactly outside the statistics and code sanity are invariants of the bounded model; every history of the model and seeded random scenarios (1..1000 symbols, Fibonacci profiles, items spanning 0..2+ whole bytes at every phase, generations, wrapped items) are executed on HuffmanContainer<u8>/<u16> in both profiles; TLC validates each recorded event: measured code lengths must be an optimal prefix code for the spec's own merged statistics, bit ranges, reads and refusals must be as specified.", "5 C06"),
  "C07": ("tlc-dictionary", "TLC model check of DictMC (every admissible ranking as merge outcome) + trace validation against TraceDict",
          "RoundTrip / RefuseExact / RefusalNecessary are invariants of the bounded model; model histories and seeded random scenarios (all first bytes, entries vs prefixes vs tags, empty strings, 1..4 sources, generations, 1500 distinct strings with a dominant one) run on CodecRegion<DictionaryCodec> in both profiles; TLC validates every recorded push/merge/clear: exact bytes back or a legitimate refusal, must-code strings stored in one byte.", "5 C07"),
- "C08": ("tlc-regions", "TLC invariant ClearFresh (observational equivalence with Init) + replay against a real default twin",
+ "C08": ("tlc-regions", "TLC invariant ClearFresh (observational equivalence with Init) + replay against a real default twin + TLC trace validation of recorded histories with clears (TraceContract with brand-new twins, TraceIC, TraceHuffman, TraceDict, TraceCodedColumns)",
          "ClearR(st) is observationally equal to InitR for every reachable state (look-ahead EquivDepth); on the code, for every history containing a clear, the same history with the clear replaced by a brand-new region must return the same indices and reads afterwards (regions, index containers, FlatStacks).", "5 C08"),
- "C09": ("tlc-regions", "TLC model with Copy actions (identity on every Level-B field) + replay comparing copy and original",
+ "C09": ("tlc-regions", "TLC model with Copy actions (identity on every Level-B field) + replay comparing copy and original + TLC trace validation of recorded histories with copies (TraceContract, TraceIC, TraceHuffman, TraceCodedColumns)",
          "After clone / clone_from (destination pre-filled) the copy must read identically, evolve independently, and answer the same continuation as the original (both real objects, compared with each other).", "5 C09"),
- "C10": ("tlc-regions", "TLC invariant MergeFresh + stuttering reserve actions; replay against a twin that never reserved",
+ "C10": ("tlc-regions", "TLC invariant MergeFresh + stuttering reserve actions; replay against a twin that never reserved + TLC trace validation of recorded merge / reservation histories (TraceContract, TraceHuffman, TraceDict, TraceCodedColumns)",
          "reserve_items / reserve_regions / FlatStack::reserve / with_capacity are stuttering steps of the model; merge_regions yields a state observationally equal to Init. On the code the history without the reservations must end in the same indices and reads, and a merged region must be empty and read back what is pushed.", "5 C10"),
- "C11": ("tlc-regions", "TLC invariant CollapseExact + replay comparing index-equality pattern and stored bytes",
+ "C11": ("tlc-regions", "TLC invariant CollapseExact + replay comparing index-equality pattern and stored bytes + TLC trace validation of recorded histories (TraceContract)",
          "For collapsing regions at any depth the model fixes which pushes return the previous index; the replay requires the same equality pattern among returned indices, no byte stored when collapsed, and correct reads, around clear/merge/clone/serde.", "5 C11"),
- "C12": ("tlc-regions", "TLC invariant Dense + replay comparing numeric indices and rows",
+ "C12": ("tlc-regions", "TLC invariant Dense + replay comparing numeric indices and rows + ICMC offset sequences replayed through ConsecutiveIndexPairs + TLC trace validation of recorded histories (TraceContract)",
          "Consecutive-pair and columns regions return 0,1,2,... and index k reads the k-th item with exactly its own length, across clear and merge_regions, for ragged rows 0..3 wide.", "5 C12"),
  "C13": ("tlc-regions", "TLC invariant GetExact (region-backed accessor = item accessor) + one replayed test per (item, position)",
          "get(i) returns the i-th element for i < len and panics from len on, for region-backed and owned-borrowed slice and row items with adjacent neighbours; FlatStack::get is covered by C03's replay.", "5 C13"),
- "C14": ("tlc-regions", "TLC invariant CloneOntoLaw (clone_onto written as the code's algorithm) + replayed clone_onto/borrow/push_from",
+ "C14": ("tlc-regions", "TLC invariant CloneOntoLaw (clone_onto written as the code's algorithm) + replayed clone_onto/borrow/push_from + TLC trace validation of Huffman read items (TraceHuffman)",
          "clone_onto(x, t) = into_owned(x) for every t of the domain; borrow_as(&into_owned(x)) renders as x; pushing a read item (region-backed or owned-borrowed) into another region yields an equal item.", "5 C14"),
  "C15": ("tlc-regions", "TLC invariant OrderLaws (oracle is a total order) + one replayed comparison per pair and representation; Huffman raw-vs-coded comparisons through TraceHuffman",
          "The lexicographic oracle CmpV is checked to be a consistent total order on the domain; every pair of items of every comparable slice composition (region-backed and owned-borrowed) is compared on the real code with ==, !=, partial_cmp, cmp in both directions and must equal the oracle's answer; raw vs Huffman-coded items are compared in recorded runs validated against LexCmp.", "5 C15"),
- "C16": ("tlc-regions", "TLC model with Serde copy action + replay through serde_json with copy-vs-original comparison",
+ "C16": ("tlc-regions", "TLC model with Serde copy action + replay through serde_json with copy-vs-original comparison + TLC trace validation of recorded histories with serde copies (TraceContract)",
          "Serialising to JSON and back yields an object that reads identically and answers the same continuation as the original (regions, index containers, FlatStacks); values JSON cannot carry (NaN) are outside the domain.", "5 C16"),
  "C17": ("tlc-alloc", "TLC invariants ReserveItemsSufficient / ReserveRegionsSufficient on the capacity-ledger operators of Regions.tla + trace validation of capacities and allocator calls against TraceAlloc",
          "On the model, what each region's reserve_items / reserve_regions / merge_regions rule reserves per backing vector is enough for exactly the announced contents (all reachable states, all batches). On the code, a counting allocator and heap_size capacities are recorded around every push of pre-sized and un-pre-sized histories; TLC decides from its own ledger which pushes are covered and requires constant capacities and zero allocator calls for them, doubling growth and a logarithmic allocator budget otherwise; FlatStacks (merge_capacity, copy, extend in small batches) are part of the recorded histories.", "5 C17"),
- "C18": ("tlc-regions", "TLC action property UsedMonotone + PayloadR lower bound; replay comparing heap_size sums and inequalities",
+ "C18": ("tlc-regions", "TLC action property UsedMonotone + PayloadR lower bound; replay comparing heap_size sums and inequalities + TLC trace validation of recorded histories (TraceContract)",
          "used <= capacity pairwise, sum(used) >= the model's payload + index-entry bytes, non-decreasing on push, back to bookkeeping after clear with no capacity shrinking; the FlatStack's index container must contribute.", "5 C18"),
  "C19": ("tlc-index", "TLC invariant CostRule (documented cost computed independently from the pushed sequence) + replay of heap_size + TLC trace validation of long walks (TraceIC)",
          "For every enumerated sequence the real containers' used bytes equal the documented cost; FlatStacks with the optimised container over dense-index regions report zero index bytes (difference to a shadow region).", "5 C19"),
- "C20": ("tlc-regions", "TLC model in which the input form is an ignored argument + replay against a canonical-form twin",
+ "C20": ("tlc-regions", "TLC model in which the input form is an ignored argument + replay against a canonical-form twin + TLC trace validation of Huffman containers fed read items (TraceHuffman)",
          "Every (state, value, form) is a transition; the replay runs the same history with the canonical form and requires equal indices, equal stored bytes and equal reads.", "5 C20"),
 }
 NOT_YET = {
